@@ -27,6 +27,7 @@ type Clause struct {
 }
 
 type LoopSpec struct {
+	NonTerm bool // `loop k nonterminating`: termination is explicitly not claimed (no variant obligation)
 	Ordinal int
 	Vars    []Param
 	Invs    []*Clause
@@ -614,6 +615,15 @@ func buildContract(b []rawLine, sf specFile, af *ast.File, fd *ast.FuncDecl, fse
 				return nil, fmt.Errorf("%s: bad loop ordinal", pos(r))
 			}
 			curLoop = &LoopSpec{Ordinal: n}
+			if len(toks) > 1 && strings.HasPrefix(strings.TrimSpace(toks[1]), "nonterminating") {
+				curLoop.NonTerm = true
+				rest := strings.TrimSpace(strings.TrimPrefix(strings.TrimSpace(toks[1]), "nonterminating"))
+				if rest == "" {
+					toks = toks[:1]
+				} else {
+					toks[1] = rest
+				}
+			}
 			if len(toks) > 1 {
 				vs, err := parseLoopVars(toks[1])
 				if err != nil {
